@@ -25,6 +25,7 @@ import (
 	"os"
 	"os/exec"
 	"path/filepath"
+	"runtime"
 	"sort"
 	"strconv"
 	"strings"
@@ -91,6 +92,8 @@ type playDef struct {
 	SigAtMs int
 	// SigAfter: if set, SigAtMs counts from the moment the ledger shows this action started
 	SigAfter string
+	// Rdv: the actions of the (single) scene group rendezvous: all of them must run at the same time
+	Rdv bool
 	// fault descriptor (C07)
 	Fault    string
 	FaultPos string
@@ -547,7 +550,20 @@ func genScript(rng *rand.Rand, p *playDef, maxActs, maxCols int) {
 				if j >= i {
 					j++
 				}
-				sb.WriteString(chars[i:i+1] + "+" + chars[j:j+1])
+				x, y := chars[i:i+1], chars[j:j+1]
+				// `.` may be a member of a `+` group (it adds nothing to it)
+				switch rng.Intn(8) {
+				case 0:
+					sb.WriteString(x + "+.")
+				case 1:
+					sb.WriteString(".+" + x)
+				case 2:
+					sb.WriteString(x + "+.+" + y)
+				case 3:
+					sb.WriteString(x + "+" + y + "+.")
+				default:
+					sb.WriteString(x + "+" + y)
+				}
 			default:
 				i := rng.Intn(nScenes)
 				sb.WriteString(chars[i : i+1])
@@ -800,6 +816,65 @@ func pick2(rng *rand.Rand, a, b string) string {
 	return b
 }
 
+// genRendezvous: NumCPU+2 actors in ONE scene group whose actions wait for each other
+// (each drops a file and waits until all N exist, giving up after 20 s): they can only
+// all complete within the bound if the lines of the group really run concurrently.
+func genRendezvous(name string) *playDef {
+	n := runtime.NumCPU() + 2
+	p := &playDef{Name: name, Spot: map[string]string{}, RoleOf: map[string]string{}, Rdv: true}
+	p.Roles = []string{"r1"}
+	for i := 1; i <= n; i++ {
+		a := fmt.Sprintf("x%d", i)
+		p.Actors = append(p.Actors, a)
+		p.RoleOf[a] = "r1"
+	}
+	p.TempoMs = 100
+	p.Actions = []actionDef{{Name: "a0s0", DurMs: 0, Extra: fmt.Sprintf(
+		"mkdir -p $LEDGER.rdv; touch $LEDGER.rdv/$ME; t=0; while [ $(ls $LEDGER.rdv | wc -l) -lt %d ] && [ $t -lt 2000 ]; do sleep 0.01; t=$((t+1)); done; ", n)}}
+	p.Scenes = []sceneDef{{"a", []entailDef{{"every r1", []stepDef{{"a0s0", false}}}}}}
+	p.Story = []string{"a"}
+	return p
+}
+
+// genFanoutFail: a group of 3-4 concurrent lines (`a+b+c d`), the non-tolerated failing
+// one being the SLOWEST (it reports its failure after the others reported success),
+// followed by a group that must not be played.
+func genFanoutFail(rng *rand.Rand, name string, variant int) *playDef {
+	p := &playDef{Name: name, Spot: map[string]string{}, RoleOf: map[string]string{}}
+	p.Roles = []string{"r1"}
+	n := 3 + variant%2
+	for i := 1; i <= n; i++ {
+		a := fmt.Sprintf("x%d", i)
+		p.Actors = append(p.Actors, a)
+		p.RoleOf[a] = "r1"
+	}
+	p.TempoMs = pick(rng, []int{50, 100})
+	chars := "abcd"[:n]
+	failing := variant % n // position of the failing scene inside the group
+	var group []string
+	for i := 0; i < n; i++ {
+		ch := chars[i : i+1]
+		name := ch + "0s0"
+		ad := actionDef{Name: name, DurMs: rng.Intn(40)}
+		if i == failing {
+			ad.DurMs = 400
+			ad.FailAt = -1
+			ad.FailRc = pick(rng, []int{3, 3, 137})
+		}
+		p.Actions = append(p.Actions, ad)
+		p.Scenes = append(p.Scenes, sceneDef{ch, []entailDef{{p.Actors[i], []stepDef{{name, false}}}}})
+		group = append(group, ch)
+	}
+	p.Actions = append(p.Actions, actionDef{Name: "z0s0", DurMs: 10})
+	p.Scenes = append(p.Scenes, sceneDef{"z", []entailDef{{"x1", []stepDef{{"z0s0", false}}}}})
+	if variant%3 == 0 {
+		p.Story = []string{strings.Join(group, "+") + " z"}
+	} else {
+		p.Story = []string{strings.Join(group, "+") + "z"}
+	}
+	return p
+}
+
 // ---- C07 fault injection on a fixed 3-scene script
 
 func baseC07(name string) *playDef {
@@ -988,6 +1063,64 @@ func genC07(rng *rand.Rand, tier string) []*playDef {
 	return out
 }
 
+// ---- C07: the real runScene / prompt under a quiescing stopper (hook verif_c07.go)
+
+type stopCase struct {
+	Kind, K, NScenes, NLines int
+	Story                    string
+	Res                      cmd.VerifC07Result
+}
+
+func runStopCases() []stopCase {
+	dir, err := ioutil.TempDir("", "shk-e2e-stop-")
+	if err != nil {
+		panic(err)
+	}
+	defer os.RemoveAll(dir)
+	closeLog := cmd.VerifLogScope()
+	defer closeLog()
+	var out []stopCase
+	for _, story := range []string{"abc", "a+b+c a", "b a"} {
+		p := baseC07("stop")
+		p.Story = []string{story}
+		p.SpotKind = 0
+		p.Audience = nil
+		text := p.render(filepath.Join(dir, "ledger"))
+		cfg, errs := compile(p)
+		if cfg == nil {
+			panic("stop-case configuration rejected: " + errs)
+		}
+		nsc, first := 0, 0
+		for _, act := range cfg.Play {
+			for _, sc := range act {
+				if len(sc.Lines) > 0 {
+					if nsc == 0 {
+						first = len(sc.Lines)
+					}
+					nsc++
+				}
+			}
+		}
+		out = append(out, stopCase{Kind: 0, NScenes: nsc, NLines: first, Story: story, Res: cmd.VerifRunSceneQuiescing(text, 20000)})
+		for k := 1; k <= nsc; k++ {
+			// number of lines of the k-th non-empty scene
+			n, cnt := 0, 0
+			for _, act := range cfg.Play {
+				for _, sc := range act {
+					if len(sc.Lines) > 0 {
+						cnt++
+						if cnt == k {
+							n = len(sc.Lines)
+						}
+					}
+				}
+			}
+			out = append(out, stopCase{Kind: 1, K: k, NScenes: nsc, NLines: n, Story: story, Res: cmd.VerifPromptQuiesceAt(text, k, 20000)})
+		}
+	}
+	return out
+}
+
 // ---------------------------------------------------------------------------
 // Coq / JSON output
 
@@ -1002,9 +1135,65 @@ type caseOut struct {
 	ActionIdx map[string]int
 }
 
-func coqPlay(c *caseOut) string {
+// expectedPlay is what the script TEXT denotes, computed from the generator's own
+// description (independently of the real compiler): per act one scene per column that
+// has lines (a column = scene characters joined by `+`, `.` adding nothing), at
+// waitUntil = column index x tempo, its lines in the order characters / entails /
+// selected actors (cast order), and a final empty scene at (number of columns) x tempo.
+func expectedPlay(p *playDef) [][]cmd.VerifScene {
+	sceneOf := map[string]*sceneDef{}
+	for i := range p.Scenes {
+		sceneOf[p.Scenes[i].Char] = &p.Scenes[i]
+	}
+	tempo := int64(p.TempoMs) * 1e6
+	var out [][]cmd.VerifScene
+	for _, actText := range strings.Fields(strings.Join(p.Story, " ")) {
+		var act []cmd.VerifScene
+		col := int64(0)
+		var cur cmd.VerifScene
+		for i := 0; i < len(actText); i++ {
+			ch := actText[i : i+1]
+			if sd := sceneOf[ch]; sd != nil {
+				for _, e := range sd.Entails {
+					var actors []string
+					if strings.HasPrefix(e.Target, "every ") {
+						for _, a := range p.Actors {
+							if p.RoleOf[a] == strings.TrimPrefix(e.Target, "every ") {
+								actors = append(actors, a)
+							}
+						}
+					} else {
+						actors = []string{e.Target}
+					}
+					for _, a := range actors {
+						l := cmd.VerifLine{Actor: a}
+						for _, st := range e.Steps {
+							l.Steps = append(l.Steps, cmd.VerifStep{Typ: 0, Action: st.Action, FailOk: st.FailOk})
+						}
+						cur.Lines = append(cur.Lines, l)
+					}
+				}
+			}
+			if i+1 < len(actText) && actText[i+1] == '+' {
+				i++
+				continue
+			}
+			cur.WaitUntilNs = col * tempo
+			col++
+			if len(cur.Lines) > 0 {
+				act = append(act, cur)
+			}
+			cur = cmd.VerifScene{}
+		}
+		act = append(act, cmd.VerifScene{WaitUntilNs: col * tempo})
+		out = append(out, act)
+	}
+	return out
+}
+
+func coqPlay(c *caseOut, play [][]cmd.VerifScene) string {
 	var acts []string
-	for _, act := range c.Play.Play {
+	for _, act := range play {
 		var scs []string
 		for _, sc := range act {
 			var lines []string
@@ -1058,9 +1247,9 @@ func coqLedgerCase(c *caseOut) string {
 			}
 		}
 	}
-	return fmt.Sprintf("mkLcase %s %s %d %s %s %s %d %s %s %s %s %s %s",
-		coqPlay(c), vh.List(marks), c.Play.RepeatActNum, vh.Z(int64(c.Play.RepeatCount)), vh.Z(c.Play.RepeatTimeout), vh.Z(c.Play.TempoNs),
-		c.Def.SpotKind, vh.Z(o.LaunchNs), vh.Z(o.ExitNs), vh.Z(int64(o.Exit)),
+	return fmt.Sprintf("mkLcase %s %s %s %d %s %s %s %d %s %s %s %s %s %s %s",
+		coqPlay(c, c.Play.Play), coqPlay(c, expectedPlay(c.Def)), vh.List(marks), c.Play.RepeatActNum, vh.Z(int64(c.Play.RepeatCount)), vh.Z(c.Play.RepeatTimeout), vh.Z(c.Play.TempoNs),
+		c.Def.SpotKind, vh.Bool(c.Def.Rdv), vh.Z(o.LaunchNs), vh.Z(o.ExitNs), vh.Z(int64(o.Exit)),
 		vh.List(cl), vh.List(led), vh.List(csv))
 }
 
@@ -1163,7 +1352,22 @@ func main() {
 			n = *nflag
 		}
 		for i := 0; i < n; i++ {
-			p, cfg := genLedgerPlay(rng, *prop, i)
+			var p *playDef
+			var cfg *cmd.VerifCfg
+			switch {
+			case *prop == "c05" && i%8 == 7:
+				p = genFanoutFail(rng, fmt.Sprintf("c05-%d-fanout", i), i/8)
+			case *prop == "c04" && (i == n-1 || i%100 == 99):
+				p = genRendezvous(fmt.Sprintf("c04-%d-rendezvous", i))
+			}
+			if p != nil {
+				var errs string
+				if cfg, errs = compile(p); cfg == nil {
+					panic("configuration rejected: " + errs + "\n" + p.render("/tmp/ledger"))
+				}
+			} else {
+				p, cfg = genLedgerPlay(rng, *prop, i)
+			}
 			cases = append(cases, &caseOut{Name: p.Name, Prop: *prop, Def: p, Play: cfg})
 		}
 	case "c07":
@@ -1253,6 +1457,15 @@ func main() {
 			if c.Obs.Exit != 0 {
 				dist["exit-nonzero"]++
 			}
+			if strings.Contains(strings.Join(c.Def.Story, " "), "+.") || strings.Contains(strings.Join(c.Def.Story, " "), ".+") {
+				dist["plays-with-dot-inside-a-group"]++
+			}
+			if c.Def.Rdv {
+				dist[fmt.Sprintf("rendezvous-of-%d-lines", len(c.Def.Actors))]++
+			}
+			if strings.HasSuffix(c.Name, "fanout") {
+				dist["fanout-slowest-line-fails"]++
+			}
 			for _, r := range c.Obs.Ledger {
 				if r.Rc == 137 || r.Rc == 143 {
 					dist["rows-of-actions-killed-by-a-signal"]++
@@ -1272,7 +1485,20 @@ func main() {
 			}
 		}
 	}
+	var stops []stopCase
+	if *prop == "c07" && *only < 0 {
+		stops = runStopCases()
+	}
 	if *prop == "c07" {
+		var sitems []string
+		for _, sc := range stops {
+			if sc.Res.SetupErr != "" {
+				panic("stop case setup: " + sc.Res.SetupErr)
+			}
+			sitems = append(sitems, fmt.Sprintf("mkScase %d %d %d %d %s %s %s %s", sc.Kind, sc.K, sc.NScenes, sc.NLines,
+				vh.Bool(sc.Res.Returned), vh.Bool(sc.Res.Err != ""), vh.Bool(sc.Res.Fired), vh.Z(sc.Res.ElapsedMs)))
+		}
+		sb.WriteString("Definition stop_cases : list scase := " + vh.ListNL(sitems) + ".\n")
 		sb.WriteString("Definition fault_cases : list fcase := " + vh.ListNL(items) + "%Z.\n")
 	} else {
 		sb.WriteString("Definition ledger_cases : list lcase := " + vh.ListNL(items) + "%Z.\n")
@@ -1301,6 +1527,6 @@ func main() {
 		}
 	}
 	vh.WriteJSON(*out, "summary.json", map[string]interface{}{
-		"plays": len(cases), "distribution": dist, "distinct_nontrivial": len(nontriv), "samples": samples,
+		"plays": len(cases), "distribution": dist, "distinct_nontrivial": len(nontriv), "samples": samples, "stop_cases": stops,
 	})
 }
